@@ -43,6 +43,7 @@ CHECKS = {
     "C03": lookup("C03"),
     "C09": lookup("C09"),
     "C10": lookup("C10"),
+    "C13": lookup("C13"),
     "C14": lookup("C14"),
     "C18": lookup("C18"),
 }
